@@ -12,13 +12,18 @@ import gen as G
 
 LEVEL = "proof"
 DRIVERS = ["driver_c13"]
-TRUSTED = ["model: coq/Model/Meta.v (frames with loc/iloc, IntervalSet constructor with the metadata-drop rule, __getitem__ forms, intersect/set_diff/split "
-           "parents, TsdFrame column selection, TsGroup selection/merge) over Model/Iset.v; theorems: Proofs/MetaProofs.v, Proofs/InterDiffProofs.v",
-           "pandas/NumPy are trusted to turn an int / slice / list / mask key into the positions Python's list semantics gives (checked by the correspondence on every key of the complete space)",
-           "save/load of metadata (np.savez of DataFrame.to_dict, DataFrame.from_dict) is exercised by real round trips only; its key tables belong to C11"]
-ASSUMPTIONS = ["labels (TsdFrame columns, TsGroup keys) are distinct; IntervalSet operands are canonical with their default 0..n-1 index",
-               "TsGroup(dict in unsorted key order, metadata=list) attaching the list to the SORTED keys is outside the statement (preservation after attachment)",
-               "NumPy functions that permute columns (np.flip/np.roll on axis 1) are C14's, not part of 'arithmetic' here"]
+TRUSTED = ["model: coq/Model/Meta.v (metadata frames with pandas' loc / iloc disciplines, IntervalSet constructor with its metadata-drop rule, every __getitem__ form, "
+           "intersect / set_diff / split parent rows, union / time_span / merge_close, TsdFrame column selection by position / label / mask / group, TsGroup selection, member-wise "
+           "operations and merge_group) over Model/Iset.v; theorems: Proofs/MetaProofs.v (+ Proofs/InterDiffProofs.v for the parents of intersect / set_diff)",
+           "pandas / NumPy are trusted to turn an int / slice / list / mask key into the positions Python's list semantics gives, and .loc / .iloc / reset_index / get_indexer to be what "
+           "the model's loc / sel / range_frame / first_pos say (exercised on every key of the complete spaces by the correspondence)",
+           "NOT MODELLED, exercised by the harness through the public API only: save / load_file round trips (key tables are C11's), merge_group(reset_index=True) (model extracted and "
+           "compared, no theorem), in-place corruption of an operand (not expressible in the functional model; operands are re-checked after every merge)"]
+ASSUMPTIONS = ["labels (TsdFrame columns, TsGroup keys) are distinct; IntervalSet operands are canonical and carry the default 0..n-1 metadata index (both are what the constructors produce)",
+               "TsGroup(dict in unsorted key order, metadata=list) attaching the list to the SORTED keys is outside the statement (it is about preservation after attachment)",
+               "NumPy functions that permute columns (np.flip / np.roll / np.take on axis 1 keep labels and metadata in the old order) are not among the statement's operations; recorded as an observation",
+               "two C13 theorems are REFUTATIONS on the faithful model (boolean pd.Series key with a re-ordered index; merge_group of groups whose concatenated keys are not ascending): "
+               "their replays on /repo are the known findings of this property"]
 
 U = 1953125  # 2^-9 s in ticks
 US = 1000
@@ -110,6 +115,15 @@ class Ctx:
                 self.res.disagreements.append({"op": info.get("op"), "input": info, "line": line, "impl": impl, "model": m})
         self.res.traces += len(self.pend)
         self.pend = []
+
+
+def call(cx, kk, inp, fn):
+    """run an implementation call; an exception on a valid input is reported, not propagated"""
+    try:
+        return fn()
+    except Exception as ex:
+        cx.viol(dict(kk, part="exception"), "raised %s: %s" % (type(ex).__name__, str(ex)[:80]), inp)
+        return None
 
 
 # ----------------------------------------------------------------------------------------------
@@ -264,6 +278,18 @@ def run_iset_index(cx):
                 err = attach_err(r, ivs, "same")
                 if (err and (err != "nometa" or want)) or [t[0] for t in ticks(r)] != [ivs[i][0] for i in want]:
                     cx.viol({"op": "IntervalSet." + nm}, str(err), {"intervals": ivs, "threshold": thr}, canon_res(r))
+        with tempfile.TemporaryDirectory() as d:
+            ep.save(os.path.join(d, "e.npz"))
+            r = nap.load_file(os.path.join(d, "e.npz"))
+            res.case(("iset", gname, "save_load"), nontrivial=True)
+            res.count("save_load")
+            err = attach_err(r, ivs, "same")
+            if err or len(r) != n:
+                cx.viol({"op": "IntervalSet.save_load"}, str(err), {"intervals": ivs}, canon_res(r))
+            r = r[1:]
+            err = attach_err(r, ivs, "same")
+            if err or len(r) != n - 1:
+                cx.viol({"op": "IntervalSet.save_load", "part": "then_index"}, str(err), {"intervals": ivs}, canon_res(r))
         r = ep[["start", "end", "tag", "lab"]]
         res.case(("iset", gname, "columns"), nontrivial=True)
         err = attach_err(r, ivs, "same")
@@ -355,35 +381,37 @@ def run_setops(cx):
         res.case(("setop", tuple(a), tuple(b)), nontrivial=any(s < e2 and s2 < e for s, e in a for s2, e2 in b))
         res.count("setop_pairs")
         # intersect
-        r = A.intersect(B)
-        impl = canon_res(r, ("tag", "tagb"))
+        r = call(cx, {"op": "intersect"}, inp, lambda: A.intersect(B))
+        impl = canon_res(r, ("tag", "tagb")) if r is not None else "E"
         cx.corr("inter\t%s\t%s" % (obj_line(a), obj_line(b)), impl, dict(inp, op="intersect"))
-        if len(r):
+        if r is not None and len(r):
             for col, orig in (("tag", a), ("tagb", b)):
                 err = attach_err(r, orig, "inside", col)
                 if err:
                     cx.viol({"op": "intersect", "side": col, "part": "lost" if err == "nometa" else "misattached"}, err, inp, impl)
         # set_diff
-        r = A.set_diff(B)
-        impl = canon_res(r)
+        r = call(cx, {"op": "set_diff"}, inp, lambda: A.set_diff(B))
+        impl = canon_res(r) if r is not None else "E"
         cx.corr("diff\t%s\t%s" % (obj_line(a), C.fmt_iset(b)), impl, dict(inp, op="set_diff"))
-        if len(r):
+        if r is not None and len(r):
             err = attach_err(r, a, "inside")
             if err:
                 cx.viol({"op": "set_diff", "part": "lost" if err == "nometa" else "misattached"}, err, inp, impl)
             if any(any(s < e2 and s2 < e for s2, e2 in b) for s, e in ticks(r)):
                 cx.viol({"op": "set_diff", "part": "intervals"}, "difference overlaps the subtrahend", inp, impl)
         # union drops
-        r = A.union(B)
-        cx.corr("union\t%s\t%s" % (obj_line(a), obj_line(b)), canon_res(r), dict(inp, op="union"))
-        if r.metadata_columns:
+        r = call(cx, {"op": "union"}, inp, lambda: A.union(B))
+        cx.corr("union\t%s\t%s" % (obj_line(a), obj_line(b)), canon_res(r) if r is not None else "E", dict(inp, op="union"))
+        if r is not None and r.metadata_columns:
             cx.viol({"op": "union"}, "union returned metadata", inp, canon_res(r))
     for a in sets:
         A = ep_of(a, "tag")
         for b in (U, 2 * U, 3 * U):
             res.case(("split", tuple(a), b), nontrivial=any(e - s > b for s, e in a))
             res.count("split")
-            r = A.split(b / 1e9)
+            r = call(cx, {"op": "split"}, {"A": a, "size": b}, lambda: A.split(b / 1e9))
+            if r is None:
+                continue
             impl = canon_res(r)
             cx.corr("split\t%s\t%d" % (obj_line(a), b), impl, {"op": "split", "A": a, "size": b})
             if len(r):
@@ -394,7 +422,9 @@ def run_setops(cx):
             if len(r) != exp_n:
                 cx.viol({"op": "split", "part": "pieces"}, "split returned %d pieces, expected %d" % (len(r), exp_n), {"A": a, "size": b}, impl)
         for thr in (0, U, 2 * U):
-            r = A.merge_close_intervals(thr / 1e9)
+            r = call(cx, {"op": "merge_close_intervals"}, {"A": a, "thr": thr}, lambda: A.merge_close_intervals(thr / 1e9))
+            if r is None:
+                continue
             res.case(("merge_close", tuple(a), thr), nontrivial=len(r) < len(a))
             cx.corr("merge_close\t%s\t%d" % (obj_line(a), thr), canon_res(r), {"op": "merge_close_intervals", "A": a, "thr": thr})
             if r.metadata_columns:
@@ -621,8 +651,12 @@ def run_frame(cx):
                 check(r, [consts[i] for i in p], kk, inp)
                 cx.corr("f_labels\t%s\t%s" % (objl, C.fmt_ints([code(l) for l in ks])), canon(r), dict(inp, op="frame_get_labels"))
         for j, l in enumerate(labs):
-            r = fr.loc[l]
             res.case(("frame", lname, "loc_scalar", str(l)), nontrivial=True)
+            try:
+                r = fr.loc[l]
+            except Exception as ex:
+                cx.viol({"op": "TsdFrame.loc", "form": "scalar", "part": "exception"}, "valid key raised " + type(ex).__name__, {"labels": labs, "key": l})
+                continue
             if not (np.asarray(r.values) == consts[j]).all():
                 cx.viol({"op": "TsdFrame.loc", "form": "scalar"}, "loc[label] is not that label's column", {"labels": labs, "key": l})
         # groupby
@@ -806,7 +840,9 @@ def run_group(cx):
             check(part, [(k, rk[k]) for k in part.keys()], {"op": "TsGroup.getby_intervals"}, {"keys": keys})
         # operations that keep every member: restrict, get, save/load
         ep = nap.IntervalSet(G.arr([10 * U, 40 * U]), G.arr([30 * U, 70 * U]))
-        for nm, fn in (("restrict", lambda: g.restrict(ep)), ("get", lambda: g.get(20 * U / 1e9, 60 * U / 1e9)), ("restrict_then_keys", lambda: g.restrict(ep)[[keys[-1], keys[0]]])):
+        src = nap.Tsd(G.arr([0, 80 * U]), np.array([1.0, 2.0]), time_support=sup)
+        for nm, fn in (("restrict", lambda: g.restrict(ep)), ("get", lambda: g.get(20 * U / 1e9, 60 * U / 1e9)), ("value_from", lambda: g.value_from(src)),
+                       ("restrict_then_keys", lambda: g.restrict(ep)[[keys[-1], keys[0]]])):
             res.case(("group", kname, nm), nontrivial=True)
             res.count("group_same_members_op")
             try:
@@ -816,7 +852,7 @@ def run_group(cx):
                 continue
             want = list(zip(keys, resids)) if nm != "restrict_then_keys" else [(keys[0], resids[0]), (keys[-1], resids[-1])]
             check(r, want, {"op": "TsGroup." + nm}, {"keys": keys})
-            if nm != "restrict_then_keys":
+            if nm in ("restrict", "get"):
                 cx.corr("g_map\t%s" % objl, canon(r), {"op": "group_map", "via": nm, "keys": keys})
         with tempfile.TemporaryDirectory() as d:
             g.save(os.path.join(d, "g.npz"))
@@ -839,10 +875,13 @@ def run_group(cx):
                         ga, gb = mk(ka, [rk[k] for k in ka]), mk(kb, [rk[k] for k in kb])
                         inp = {"keys_1": ka, "keys_2": kb, "reset_index": reset, "ignore_metadata": ign}
                         res.case(("group", kname, "merge", assign, order, reset, ign), nontrivial=True)
-                        res.count("group_merge" + ("_interleaved_keys" if inter else ""))
-                        kk = {"op": "TsGroup.merge_group", "reset_index": reset, "ignore_metadata": ign, "keys": "interleaved" if inter else "ordered"}
+                        res.count("group_merge" + ("_keys_not_ascending" if inter else ""))
+                        kk = {"op": "TsGroup.merge_group", "reset_index": reset, "ignore_metadata": ign, "keys": "concatenation_not_sorted" if inter else "ascending"}
                         try:
-                            r = nap.TsGroup.merge_group(ga, gb, reset_index=reset, ignore_metadata=ign)
+                            if order == "12":
+                                r = nap.TsGroup.merge_group(ga, gb, reset_index=reset, ignore_metadata=ign)
+                            else:
+                                r = ga.merge(gb, reset_index=reset, ignore_metadata=ign)
                         except Exception as ex:
                             r = None
                             cx.viol(dict(kk, part="exception"), "merge of groups with disjoint keys raised %s: %s" % (type(ex).__name__, str(ex)[:60]), inp)
@@ -879,11 +918,13 @@ def run(res, tier, seed):
                 "operations, save/load; TsGroup (2 key sets): key lists in every order, masks, getby_*, groupby, restrict/get, save/load, merge_group over every split x order x flags, operands "
                 "re-checked after each merge. non-trivial = the selection is proper or reorders / the input needs repair / the operands overlap")
     res.exhaustive = True
-    run_iset_index(cx)
-    run_ctor(cx)
-    run_setops(cx)
-    run_frame(cx)
-    run_group(cx)
+    for part in (run_iset_index, run_ctor, run_setops, run_frame, run_group):
+        try:
+            part(cx)
+        except Exception as ex:  # an exception nobody anticipated: report it against the part, keep the other parts running
+            import traceback
+            cx.pend = []
+            cx.viol({"op": part.__name__, "part": "unexpected_exception"}, "raised %s: %s" % (type(ex).__name__, str(ex)[:120]), {"traceback": traceback.format_exc()[-600:]})
     cx.flush()
 
 
